@@ -160,7 +160,7 @@ CLAIMED = {
     ),
     "C14": dict(
         text="spec/Assign.tla transcribes the qualifier decision table; spec/MC_Assign.tla is the property's full quantifier (256 subsets x "
-        "y^3 x rest^3 = 208 896 behaviours, 835 584 states) on which TLC checks 13 prose invariants written from docs/assignment.md and the "
+        "y^3 x rest^3 = 241 408 behaviours, 965 632 states) on which TLC checks 13 prose invariants written from docs/assignment.md and the "
         "property statement; every behaviour (quick: a 1/16 covering sample containing all 256 subsets) is replayed as a real csvpath over a "
         "3-line file comparing, per line, the value of x, the assignment's vote and whether the line was returned.",
         note="Trusted: TLC; y absent = row too short for the header index; the rest of the line is one equality component.",
